@@ -6,13 +6,26 @@ import (
 	"verif/sim/layerr"
 )
 
+// part is one layer's share of a check: fn runs `quick`/`thorough` batches of it.
+type part struct {
+	name     string
+	fn       func(*core.Job)
+	quick    int
+	thorough int
+}
+
+func (p part) n(tier string) int {
+	if tier == "thorough" {
+		return p.thorough
+	}
+	return p.quick
+}
+
 type check struct {
-	fn          func(*core.Job)
+	parts       []part
 	replay      func(id, path string) int
 	post        func(*ev.Report)
 	level       string
-	quick       int // batches
-	thorough    int
 	maxWorkers  int
 	rule        string
 	assumptions []string
@@ -28,10 +41,46 @@ var compR = map[string]string{
 
 var registry = map[string]check{
 	"C08": {
-		fn: layerr.C08, replay: layerr.Replay, level: "exploration", quick: 32, thorough: 320,
+		parts:  []part{{"runtime", layerr.C08, 32, 320}},
+		replay: layerr.Replay, level: "exploration",
 		rule: "cases = seeded combinator terms (swarm over constructor subsets, thunks with stateful effects/conditions) x a full-drain consumer history with Current/Send/Result/quiesce steps, compared event by event with the reference interpreter run as a coroutine; plus Combine associativity/unit laws as metamorphic runs of the real code. Non-trivial = the term yields at least once and the history has >= 2 generator-side effects; distinct = digest of (term text, op list).",
 		assumptions: []string{"the reference interpreter (structured loops with break/continue/return, ~70 lines) and refco are correct",
 			"a deterministic full-drain history contains every consumer truncation as a prefix"},
 		components: compR,
+	},
+	"C09": {
+		parts:  []part{{"runtime", layerr.C09, 32, 256}},
+		replay: layerr.Replay, level: "exploration",
+		rule:        "cases = (generator from the canonical family: n yields with/without result, echo generators; or a random term) x a seeded operation history over {MoveNext, Current, Send(unique v), Result} biased to the protocol boundaries, compared event by event with the sequential reference model (refco state machine: unstarted/suspended/done). Result is compared only once the model is done (its value is masked before). Non-trivial = >= 3 ops and >= 1 successful advance; distinct = digest of (term, ops).",
+		assumptions: []string{"refco implements the documented protocol (auto-start on Send, zero Current before start/after exhaustion)"},
+		components:  compR,
+	},
+	"C10": {
+		parts:  []part{{"runtime", layerr.C10, 16, 64}},
+		replay: layerr.ReplayC10, level: "exploration",
+		rule:        "cases = (iterator kind: string/int/slice/slice of any/map/map of any/chan) x input x step script (Current read once or twice after each advance, then mutator/producer steps: element writes ahead/behind the cursor, append, reslice, map overwrite/delete, channel send/close). Strings: all strings up to length 3 (quick) / 4 (thorough) over a 12-symbol alphabet of ASCII, 2/3/4-byte runes, invalid and truncated sequences, surrogate halves and NUL are enumerated, plus random longer strings and raw bytes. Oracle: the native range statement over the same value run as a coroutine under the same script; multi-entry maps by the spec-derived invariant (each present key exactly once with its current value, deleted-before-reached never), which is self-checked against native range on every case. Non-trivial = history of >= 4 events; distinct = digest of the case.",
+		assumptions: []string{"Go's range statement is the specification", "strings and ints have no second actor: that part is seeded/enumerated inputs, not interleavings (DESIGN.md 4 C10)"},
+		components:  compR,
+	},
+	"C14": {
+		parts:  []part{{"runtime", layerr.C14, 32, 256}},
+		replay: layerr.Replay, level: "exploration",
+		rule:        "cases = k<=6 iterators over <=3 term descriptions (iterators may be started from ONE shared Seq value) owned by m<=4 consumer threads; the seeded scheduler picks the running thread at every op boundary and at every effect point inside a step. Oracle (self-relative): each iterator's projection of the interleaved history equals the history of the same iterator consumed alone by the same ops; secondary: the interleaved history equals the reference's under the same choices. Non-trivial = >= 2 iterators, >= 2 thread switches, >= 2 effects; distinct = digest of (terms, ownership, ops, choices).",
+		assumptions: []string{"one goroutine runnable at a time (baton passing) is a faithful stand-in for interleavings at effect points; data races are the -race supplement's job"},
+		components:  compR,
+	},
+	"C17": {
+		parts:  []part{{"runtime", layerr.C17, 12, 12}},
+		replay: layerr.Replay, level: "exploration",
+		rule:        "cases = loop kind (For/While/Loop) x quiet body (Continue/Normal, optionally behind an inner loop) x n in an ascending ladder; stack depth (runtime.Callers) sampled at effect points; oracle: max depth at 10n <= max depth at n + 8 frames, and delivered values equal the reference. Every case is non-trivial (>= 100 iterations); distinct = (loop shape, n).",
+		assumptions: []string{"runtime.Callers depth is a faithful measure of stack use per frame kind"},
+		components:  compR,
+	},
+	"C18": {
+		parts:  []part{{"runtime", layerr.C18, 32, 192}},
+		replay: layerr.Replay, level: "fault_enumeration",
+		rule:        "for each sampled (terms, consumer ops, thread interleaving) with J generator-side effects in the fault-free run, J further runs arm a panic with a unique value at effect j (every j, capped at 120 quick / 400 thorough per run). Oracle (self-relative): identical history up to effect j, the consumer call that was executing ends in a panic carrying exactly the armed value, no later event of that iterator, all other iterators' projections unchanged; secondary: the reference coroutine's history under the same fault is identical. Non-trivial = the run yields at least once; distinct = digest of (scenario, j).",
+		assumptions: []string{"effects (vrt.E) mark every statement position a panic can originate from in the workload"},
+		components:  compR,
 	},
 }
